@@ -205,14 +205,30 @@ func hC13(cf cfgC13) {
 // adding or searching before training is an error; Train needs >= nlist vectors
 func H_C13_untrained() {
 	metric := vMetrics[vChoose("metric", 3)]
-	idx, _ := NewIVFIndex(1, 2, metric)
-	vAssert(idx.Add(*NewVectorNodeWithID(1, vVec("v", 1))) != nil, "add-before-training-is-error")
-	_, err := idx.NewSearch().WithQuery(vVec("q", 1)).WithK(1).Execute()
+	nlist := 1 + vChoose("nlist", 4) // 1..4
+	dim := 1 + vChoose("dim", 2)
+	idx, cerr := NewIVFIndex(dim, nlist, metric)
+	vAssert(cerr == nil, "constructor")
+	vAssert(!idx.Trained(), "fresh-index-is-untrained")
+	vAssert(idx.Add(*NewVectorNodeWithID(1, vVec("v", dim))) != nil, "add-before-training-is-error")
+	_, err := idx.NewSearch().WithQuery(vVec("q", dim)).WithK(1).Execute()
 	vAssert(err != nil, "search-before-training-is-error")
-	vAssert(idx.Train([]VectorNode{*NewVectorNodeWithID(1, []float32{1})}) != nil, "train-with-too-few-vectors-is-error")
-	vAssert(!idx.Trained(), "still-untrained")
-	vAssert(idx.Train([]VectorNode{*NewVectorNodeWithID(1, []float32{1}), *NewVectorNodeWithID(2, []float32{5})}) == nil, "train-ok")
-	vAssert(idx.Trained() && len(idx.centroids) == 2, "trained")
-	vAssert(idx.Add(*NewVectorNodeWithID(3, []float32{2})) == nil, "add-after-training")
+	_, err = idx.NewSearch().WithQuery(vVec("q", dim)).WithK(1).WithNProbes(0).Execute()
+	vAssert(err != nil, "search-before-training-is-error")
+	if nlist >= 2 {
+		vAssert(idx.Train([]VectorNode{*NewVectorNodeWithID(1, []float32{1, 2}[:dim])}) != nil, "train-with-too-few-vectors-is-error")
+		vAssert(!idx.Trained(), "still-untrained")
+		vAssert(idx.Add(*NewVectorNodeWithID(1, []float32{1, 2}[:dim])) != nil, "add-before-training-is-error")
+	}
+	var tv []VectorNode
+	for i := 0; i < nlist; i++ {
+		tv = append(tv, *NewVectorNodeWithID(uint32(100+i), []float32{float32(1 + 4*i), 2}[:dim]))
+	}
+	vAssert(idx.Train(tv) == nil, "train-ok")
+	vAssert(idx.Trained() && len(idx.centroids) == nlist, "trained")
+	// training leaves the index empty: nothing added before (all refused) shows up
+	r, serr := idx.NewSearch().WithQuery([]float32{1, 2}[:dim]).WithK(0).WithNProbes(0).Execute()
+	vAssert(serr == nil && len(r) == 0, "freshly-trained-index-is-empty")
+	vAssert(idx.Add(*NewVectorNodeWithID(3, []float32{2, 1}[:dim])) == nil, "add-after-training")
 	vCover("ran")
 }
